@@ -13,6 +13,7 @@ def run(F, G, tier, seed):
     rewrites.run_idtok(chk, G, L, K)
     rewrites.run_lexonly(chk, F)
     rewrites.run_commentlang(chk, L, maxlen=5 if tier == "quick" else 7)
+    rewrites.run_diag_sink(chk, F)
     return chk.finish(
         "Decides the syntactic preconditions of C09 - each a necessary condition of the invariance, each checked on "
         "every instance in grammar, scanner and XML reader: parentheses build nothing; a keyword alias and its "
